@@ -40,31 +40,48 @@ def _key(rng, pool=None):
     return "".join(rng.choice(KEYCH) for _ in range(rng.randint(1, 8)))
 
 
+def _E(s):
+    import enc
+    return enc.enc_str(s)
+
+
 def _braced(rng, depth):
-    """content of a brace group: bchar* with nested groups"""
-    out = []
+    """content of a brace group: bchar* with nested groups -> (text, ast)"""
+    out, ast = [], []
     for _ in range(rng.randint(0, 5)):
         r = rng.random()
         if r < 0.2 and depth > 0:
-            out.append("{" + _braced(rng, depth - 1) + "}")
+            t, a = _braced(rng, depth - 1)
+            out.append("{" + t + "}")
+            ast.append(a)
         elif r < 0.35:
-            out.append(rng.choice(BRACED_EXTRA))
+            t = rng.choice(BRACED_EXTRA)
+            out.append(t)
+            ast.extend(_E(t))
         else:
-            out.append(rng.choice(SAFE_ATOMS))
-    return "".join(out)
+            t = rng.choice(SAFE_ATOMS)
+            out.append(t)
+            ast.extend(_E(t))
+    return "".join(out), ast
 
 
 def _quoted(rng, depth):
-    out = []
+    out, ast = [], []
     for _ in range(rng.randint(0, 5)):
         r = rng.random()
         if r < 0.2 and depth > 0:
-            out.append("{" + _quoted(rng, depth - 1) + "}")
+            t, a = _quoted(rng, depth - 1)
+            out.append("{" + t + "}")
+            ast.append(a)
         elif r < 0.3:
-            out.append(rng.choice(QUOTED_EXTRA))
+            t = rng.choice(QUOTED_EXTRA)
+            out.append(t)
+            ast.extend(_E(t))
         else:
-            out.append(rng.choice(SAFE_ATOMS))
-    return "".join(out)
+            t = rng.choice(SAFE_ATOMS)
+            out.append(t)
+            ast.extend(_E(t))
+    return "".join(out), ast
 
 
 def _bare(rng):
@@ -74,25 +91,35 @@ def _bare(rng):
 def _piece(rng, depth, bare_pool=None):
     r = rng.random()
     if r < 0.25:
-        return rng.choice(bare_pool) if bare_pool and rng.random() < 0.7 else _bare(rng)
+        t = rng.choice(bare_pool) if bare_pool and rng.random() < 0.7 else _bare(rng)
+        return t, [0, _E(t)]
     if r < 0.7:
-        return "{" + _braced(rng, depth) + "}"
-    return '"' + _quoted(rng, depth) + '"'
+        t, a = _braced(rng, depth)
+        return "{" + t + "}", [1, a]
+    t, a = _quoted(rng, depth)
+    return '"' + t + '"', [2, a]
 
 
 def _value(rng, depth, bare_pool=None):
-    ps = [_piece(rng, depth, bare_pool)]
+    t, a = _piece(rng, depth, bare_pool)
+    ps, rest = [t], []
     while rng.random() < 0.15:
-        ps.append(rng.choice(INNER_WS) + "#" + rng.choice(INNER_WS) + _piece(rng, depth, bare_pool))
-    return "".join(ps)
+        w1, w2 = rng.choice(INNER_WS), rng.choice(INNER_WS)
+        t2, a2 = _piece(rng, depth, bare_pool)
+        ps.append(w1 + "#" + w2 + t2)
+        rest.append([_E(w1), _E(w2), a2])
+    return "".join(ps), [a, rest]
 
 
-def gen_doc(rng, max_items=8, depth=3, entry_keys=None, string_keys=None, field_names=None, kinds=None, bare_pool=None):
-    """Returns (text, items).  Each item is a dict describing the source block:
-    kind, text (raw), start_line, and per kind: type/key/fields[(name, value, line)] | key/value | value | comment."""
+def gen_doc(rng, max_items=8, depth=3, entry_keys=None, string_keys=None, field_names=None, kinds=None, bare_pool=None,
+            with_ast=False):
+    """Returns (text, items) or, with_ast, (text, items, ast).  Each item is a dict describing the source block:
+    kind, text (raw), start_line, and per kind: type/key/fields[(name, value, line)] | key/value | value | comment.
+    ast is the derivation in the sx encoding documented in coq/theories/Run/RunGrammar.v."""
     kinds = kinds or ["entry", "entry", "entry", "string", "preamble", "comment", "freetext"]
     parts = []
     items = []
+    ast_items = []
     text_len_lines = 0
 
     def emit(s):
@@ -102,9 +129,11 @@ def gen_doc(rng, max_items=8, depth=3, entry_keys=None, string_keys=None, field_
 
     def gap(allow_empty=True):
         n = rng.randint(0 if allow_empty else 1, 3)
-        emit("".join(rng.choice(WS_GAP) for _ in range(n)))
+        g = "".join(rng.choice(WS_GAP) for _ in range(n))
+        emit(g)
+        return g
 
-    gap()
+    gap0 = gap()
     last_free = False
     for _ in range(rng.randint(0, max_items)):
         kind = rng.choice(kinds)
@@ -114,60 +143,78 @@ def gen_doc(rng, max_items=8, depth=3, entry_keys=None, string_keys=None, field_
         if kind == "entry":
             typ = rng.choice(TYPES)
             key = _key(rng, entry_keys)
-            head = "@" + typ + rng.choice(HWS) + "{" + rng.choice(INNER_WS) + key + rng.choice(INNER_WS)
+            hws, w1, w2 = rng.choice(HWS), rng.choice(INNER_WS), rng.choice(INNER_WS)
+            head = "@" + typ + hws + "{" + w1 + key + w2
             buf = [head]
             fields = []
+            fasts = []
             nf = rng.randint(0, 4)
             if nf == 0 and rng.random() < 0.5:
                 buf.append("}")            # @a{k}
+                etail = []
             else:
                 buf.append(",")
+                trail = []
                 for i in range(nf):
                     name = _key(rng, field_names)
                     pre = rng.choice(INNER_WS)
                     mid1 = rng.choice(INNER_WS)
                     mid2 = rng.choice(INNER_WS)
-                    val = _value(rng, depth, bare_pool)
+                    val, vast = _value(rng, depth, bare_pool)
                     post = rng.choice(INNER_WS)
                     before = "".join(buf) + pre + name + mid1
                     fline = line0 + before.count("\n")
                     buf.append(pre + name + mid1 + "=" + mid2 + val + post)
                     fields.append([name, val, fline])
+                    fasts.append([_E(pre), _E(name), _E(mid1), _E(mid2), vast, _E(post)])
                     if i < nf - 1 or rng.random() < 0.4:
                         buf.append(",")
                 if nf == 0 or buf[-1] == ",":
-                    buf.append(rng.choice(INNER_WS))
+                    w = rng.choice(INNER_WS)
+                    buf.append(w)
+                    trail = [_E(w)]
                 buf.append("}")
+                etail = [[fasts, trail]]
             raw = "".join(buf)
             items.append({"kind": "entry", "raw": raw, "line": line0, "type": typ.lower(), "key": key, "fields": fields})
+            ast_items.append([0, _E(typ), _E(hws), _E(w1), _E(key), _E(w2), etail])
         elif kind == "string":
             kw = rng.choice(["string", "String", "STRING", "sTrInG"])
             name = _key(rng, string_keys)
-            val = _value(rng, depth)
-            raw = "@" + kw + rng.choice(HWS) + "{" + rng.choice(INNER_WS) + name + rng.choice(INNER_WS) + "=" + \
-                  rng.choice(INNER_WS) + val + rng.choice(INNER_WS) + "}"
+            val, vast = _value(rng, depth)
+            hws, w1, w2, w3, w4 = rng.choice(HWS), rng.choice(INNER_WS), rng.choice(INNER_WS), rng.choice(INNER_WS), rng.choice(INNER_WS)
+            raw = "@" + kw + hws + "{" + w1 + name + w2 + "=" + w3 + val + w4 + "}"
             items.append({"kind": "string", "raw": raw, "line": line0, "key": name, "value": val})
+            ast_items.append([1, _E(kw), _E(hws), _E(w1), _E(name), _E(w2), _E(w3), vast, _E(w4)])
         elif kind == "preamble":
             kw = rng.choice(["preamble", "Preamble", "PREAMBLE"])
-            body = _braced(rng, depth)
-            raw = "@" + kw + rng.choice(HWS) + "{" + body + "}"
+            body, bast = _braced(rng, depth)
+            hws = rng.choice(HWS)
+            raw = "@" + kw + hws + "{" + body + "}"
             items.append({"kind": "preamble", "raw": raw, "line": line0, "value": body})
+            ast_items.append([2, _E(kw), _E(hws), bast])
         elif kind == "comment":
             kw = rng.choice(["comment", "Comment", "COMMENT"])
-            body = _braced(rng, depth)
-            raw = "@" + kw + rng.choice(HWS) + "{" + body + "}"
+            body, bast = _braced(rng, depth)
+            hws = rng.choice(HWS)
+            raw = "@" + kw + hws + "{" + body + "}"
             items.append({"kind": "comment", "raw": raw, "line": line0, "comment": body.strip()})
+            ast_items.append([3, _E(kw), _E(hws), bast])
         else:
             # free text: starts and ends with a non-whitespace character; may contain any delimiter; no block start
             atoms = ["foo", "%", "bar", " ", "\n", "{", "}", '"', ",", "=", "@.", "\\", "x", "#", "é", "\t", "b a z"]
             mid = "".join(rng.choice(atoms) for _ in range(rng.randint(0, 6)))
             raw = rng.choice(["%", "x", "foo", "}", ","]) + ((mid + rng.choice(["y", "%", "}", "=", "Z"])) if rng.random() < 0.7 else "")
             items.append({"kind": "freetext", "raw": raw, "line": line0, "comment": raw})
+            ast_items.append([4, _E(raw)])
         emit(raw)
         last_free = (kind == "freetext")
-        # a free text must be separated from a following '@' ... no: any gap (also empty) is fine
-        gap()
-    return "".join(parts), items
+        g = gap()
+        ast_items[-1] = [ast_items[-1], _E(g)]
+    text = "".join(parts)
+    if with_ast:
+        return text, items, [_E(gap0), ast_items]
+    return text, items
 
 
 # ------------------------------------------------------------------ mutations
